@@ -624,6 +624,22 @@ func genQuery(r *rand.Rand, w Window, o GenOpts) string {
 		}
 		return g.binary(d)
 	case "func":
+		if !o.NoAt && r.Intn(8) == 0 {
+			// a function whose vector argument is pinned by @ (computed once, handed to every step) and
+			// whose scalar argument moves with the step
+			t := g.w.Start + int64(r.Intn(int(g.w.End-g.w.Start)+120_000)) - 60_000
+			vec := fmt.Sprintf("%s @ %d.%03d", g.selector(), t/1000, t%1000)
+			sc := pick(r, []string{"time() / 10", "(time() % 7)", "time() - 600", "scalar(bar{a=\"x\",b=\"1\"})", "(time() % 50) - 10"})
+			switch r.Intn(4) {
+			case 0:
+				return fmt.Sprintf("clamp_max(%s, %s)", vec, sc)
+			case 1:
+				return fmt.Sprintf("clamp_min(%s, %s)", vec, sc)
+			case 2:
+				return fmt.Sprintf("clamp(%s, %s, %s + 20)", vec, sc, sc)
+			}
+			return fmt.Sprintf("(%s) %s %s", vec, pick(r, []string{"*", "+", ">", "- "}), sc)
+		}
 		return g.funcOf(d)
 	}
 	if r.Intn(8) == 0 && !o.SelectorOnly {
@@ -641,7 +657,10 @@ func genCase(seed int64, id int, o GenOpts) *Case {
 		c.Lookback = 300_000
 		c.Procs = pick(r, []int{2, 8, 16})
 		i := 0
-		variant := r.Intn(6) // 0-2 regular; 3 no +Inf bucket for foo{a="y"}; 4 non-monotonic counts; 5 gaps and a non-numeric le
+		variant := r.Intn(7) // 0-2 regular; 3 no +Inf bucket for foo{a="y"}; 4 non-monotonic counts; 5 gaps and a non-numeric le; 6 steps at which only the +Inf bucket has a sample
+		if variant == 6 {
+			c.Lookback = 20_000
+		}
 		for _, name := range []string{"foo", "bar"} {
 			for _, a := range []string{"x", "y"} {
 				les := []string{"0.1", "1", "+Inf"}
@@ -660,6 +679,9 @@ func genCase(seed int64, id int, o GenOpts) *Case {
 						}
 						if variant == 5 && (t/15_000+int64(i))%5 == 0 {
 							continue // this bucket is missing around t
+						}
+						if variant == 6 && le != "+Inf" && (t/15_000)%4 < 2 {
+							continue // only the +Inf bucket has samples around t
 						}
 						smp = append(smp, Sample{T: t + int64(i%2), V: v})
 					}
